@@ -236,7 +236,7 @@ def parse_global(m, s):
     init = None
     if not extern:
         init = parse_const(p, t)
-    m.globals[name] = dict(type=t, init=init, const=const, extern=extern)
+    m.globals[name] = dict(type=t, init=init, const=const, extern=extern, tls=any(tk[1] == 'thread_local' for tk in toks[:8]))
     m.order.append(('g', name))
 
 
@@ -673,11 +673,12 @@ class Emitter:
             g = m.globals[name]
             ct = s.ctype(g['type'])
             n = s.gname(name)
+            tl = '__thread ' if g.get('tls') else ''
             if g['extern']:
-                gdecl.append('extern %s %s;' % (ct, n))
+                gdecl.append('extern %s%s %s;' % (tl, ct, n))
             else:
-                gdecl.append('%s %s;' % (ct, n) if False else 'extern %s %s;' % (ct, n))
-                gdef.append('%s %s = %s;' % (ct, n, s.ginit(g['init'])))
+                gdecl.append('extern %s%s %s;' % (tl, ct, n))
+                gdef.append('%s%s %s = %s;' % (tl, ct, n, s.ginit(g['init'])))
         protos = []
         for kind, name in m.order:
             if kind != 'f': continue
@@ -1291,6 +1292,7 @@ def main():
         'defined': [n[1:].strip('"') for n, f in m.funcs.items() if f.body is not None],
         'externs': [n[1:].strip('"') for n, f in m.funcs.items() if f.body is None and not n.startswith('@llvm.')],
         'extern_globals': [n[1:].strip('"') for n, g in m.globals.items() if g['extern']],
+        'extern_tls': [n[1:].strip('"') for n, g in m.globals.items() if g['extern'] and g.get('tls')],
         'global_ctors': '@llvm.global_ctors' in m.globals,
         'nondet_sites': nd,
         'ir_lines': src.count('\n'), 'c_lines': c.count('\n'),
